@@ -147,6 +147,12 @@ impl C06 {
                 let s = self.inner_string(i % n);
                 (state, framing::tpkt(&framing::x224_dt(&s)), json!({"block": b, "state": state, "mcs_level_bytes": vref::bytes::hex(&s)}), true)
             }
+            "inner-frame" => {
+                let n = self.inner_strings();
+                let state = [5u8, 0][(i / n) as usize];
+                let s = self.inner_string(i % n);
+                (state, s.clone(), json!({"block": b, "state": state, "raw_frame_bytes": vref::bytes::hex(&s)}), true)
+            }
             "inner-fast" => {
                 let n = self.inner_strings();
                 let state = [5u8, 0, 2][(i / n) as usize];
@@ -177,7 +183,7 @@ impl Prop for C06 {
         }
         let fs = FaultSpace::new(pdu_kinds(), tier);
         let n = self.inner_strings();
-        let mut blocks = vec![("single", 6 * fs.total()), ("inner-slow", self.slow_states().len() as u64 * n), ("inner-mcs", 2 * n), ("inner-fast", 3 * n)];
+        let mut blocks = vec![("single", 6 * fs.total()), ("inner-slow", self.slow_states().len() as u64 * n), ("inner-mcs", 2 * n), ("inner-fast", 3 * n), ("inner-frame", 2 * n)];
         if tier == Tier::Thorough {
             let r = fs.reduced_count();
             blocks.push(("pairs", 2 * r * r));
@@ -196,7 +202,7 @@ impl Prop for C06 {
         d
     }
     fn rule(&self) -> String {
-        "cases = (client state 0..5 reached by the honest activation prefix, one server frame with <=1 deviation (<=2 thorough)). PDU kinds: demand-active (Windows capability list and minimal), deactivate-all, synchronize, control, font-map, set-error-info, an unparsed data PDU, two share PDUs in one frame, a confirm-active sent by the server, fast-path bitmap (raw + compressed-with-header rectangles), fast-path pointer/synchronize updates, unknown fast-path codes. Deviations: every byte offset x value set (12 boundary values + honest+-1; all 256 in thorough), every offset as 16/32-bit field in both byte orders x boundary set, every truncation, extensions {+1,+2,+1500}; [inner-*] every byte string of length <=2 (<=3) and every string of length 3..5 (..6) over 8 boundary bytes at the MCS, share-control (states 0,1,5 in quick, all six in thorough) and fast-path parser entries; [pairs, thorough] all pairs of {byte:=00, byte:=FF, truncate} over all offsets, in states 0 and 5. After the hostile frame an honest PDU is read to expose desynchronisation loops. Non-trivial: the frame differs from the honest one.".into()
+        "cases = (client state 0..5 reached by the honest activation prefix, one server frame with <=1 deviation (<=2 thorough)). PDU kinds: demand-active (Windows capability list and minimal), deactivate-all, synchronize, control, font-map, set-error-info, an unparsed data PDU, two share PDUs in one frame, a confirm-active sent by the server, fast-path bitmap (raw + compressed-with-header rectangles), fast-path pointer/synchronize updates, unknown fast-path codes. Deviations: every byte offset x value set (12 boundary values + honest+-1; all 256 in thorough), every offset as 16/32-bit field in both byte orders x boundary set, every truncation, extensions {+1,+2,+1500}; [inner-*] every byte string of length <=2 (<=3) and every string of length 3..5 (..6) over 8 boundary bytes at the MCS, share-control (states 0,1,5 in quick, all six in thorough) and fast-path parser entries, and as raw unframed bytes at the frame reader; [pairs, thorough] all pairs of {byte:=00, byte:=FF, truncate} over all offsets, in states 0 and 5. After the hostile frame an honest PDU is read to expose desynchronisation loops. Non-trivial: the frame differs from the honest one.".into()
     }
     fn assumptions(&self) -> Vec<String> {
         vec!["memory rule: single request > 1 MiB or peak > 16 MiB + 1024 x bytes received".into(), "the six states are reached through RdpClient::read on the raw stack (hooks H3/H4); TLS record handling is not part of this property".into()]
